@@ -430,6 +430,7 @@ int KSI_BlockSigner_addLeaf(KSI_BlockSigner *signer, KSI_DataHash *hsh, int leve
 	int res = KSI_UNKNOWN_ERROR;
 	KSI_TreeLeafHandle *leafHandle = NULL;
 	KSI_BlockSignerHandle *tmp = NULL;
+	KSI_DataHash *savedPrevLeaf = NULL;
 	KSI_HashAlgorithm algoId;
 
 	if (signer == NULL || hsh == NULL) {
@@ -451,17 +452,24 @@ int KSI_BlockSigner_addLeaf(KSI_BlockSigner *signer, KSI_DataHash *hsh, int leve
 		goto cleanup;
 	}
 
-	/* Set the pointer to the meta data value. */
-	signer->metaData = metaData;
-
-	res = KSI_TreeBuilder_addDataHash(signer->builder, hsh, level, &leafHandle);
+	/* Create the handle first: nothing may fail once the leaf is in the tree. */
+	res = KSI_BlockSignerHandle_new(signer->ctx, &tmp);
 	if (res != KSI_OK) {
 		KSI_pushError(signer->ctx, res, NULL);
 		goto cleanup;
 	}
 
-	res = KSI_BlockSignerHandle_new(signer->ctx, &tmp);
+	/* Set the pointer to the meta data value. */
+	signer->metaData = metaData;
+
+	/* The masking processor advances the previous leaf value; remember it to roll back if the leaf is refused. */
+	savedPrevLeaf = KSI_DataHash_ref(signer->prevLeaf);
+
+	res = KSI_TreeBuilder_addDataHash(signer->builder, hsh, level, &leafHandle);
 	if (res != KSI_OK) {
+		KSI_DataHash_free(signer->prevLeaf);
+		signer->prevLeaf = savedPrevLeaf;
+		savedPrevLeaf = NULL;
 		KSI_pushError(signer->ctx, res, NULL);
 		goto cleanup;
 	}
@@ -484,6 +492,7 @@ cleanup:
 		signer->metaData = NULL;
 	}
 
+	KSI_DataHash_free(savedPrevLeaf);
 	KSI_BlockSignerHandle_free(tmp);
 	KSI_TreeLeafHandle_free(leafHandle);
 
